@@ -9,6 +9,7 @@ Driver of the composite 2.x library (Lib/V2.lean).
      rename <v> <name> | setparent <v> <p>|- | rmcrate <v> | getcrate <v> <id>
      addtrack <c> <t> | addtrackid <c> <id> | rmtrackfrom <c> <t> | cleartracks <c>
      crate.q <v> <query> [arg] | db.q <query> [arg]
+     lib2.plantprep <t>   (not a library call: Engine puts the track on its prepare list)
      lib2.raw     every table that the model holds, key columns (what `lib2.inv` judges)
      lib2.rows    every column of every Track row, blobs decoded
   stateless oracle commands, evaluated on the IMPLEMENTATION's `lib2.raw` answer:
@@ -120,7 +121,7 @@ def sRaw (s : Schema2) (L : Lib2) : String :=
   let prep := L.prep.map fun r => s!"({r.id},{match r.track with | some t => toString t | none => "null"})"
   let seq (n : Int) := if n == 0 then "none" else toString n
   unwords ["ok", s!"info(UUID,{L.ver.1},{L.ver.2.1},{L.ver.2.2})",
-    s!"seq({seq L.tdb.seq},{seq L.plSeq},{seq L.peSeq},{if hasChangeLog s then seq L.logSeq else "absent"})",
+    s!"seq({seq L.tdb.seq},{seq L.plSeq},{seq L.peSeq},{if hasChangeLog s then seq L.logSeq else "absent"},{seq L.prepSeq})",
     "Track" ++ showRows tr, "Playlist" ++ showRows pl, "PlaylistEntity" ++ showRows pe,
     "ChangeLog" ++ (if hasChangeLog s then showRows cl else "absent"), "AlbumArt" ++ showRows art,
     "PreparelistEntity" ++ showRows prep]
@@ -245,6 +246,14 @@ def step (st : St) (cmd : String) (args : List String) : St × String :=
       let (st', r) := call st (.foreignEntry c t u)
       (st', r.render fun _ => "")
     | _, _, _ => (st, "bad-op args")
+  | "lib2.plantprep", [v] =>
+    -- Engine puts the track on its prepare list (harness: INSERT INTO PreparelistEntity through the C API)
+    match tr v with
+    | some t =>
+      if !(st.lib.tdb.find t).isSome then (st, "ok skipped") else
+      let (st', r) := call st (.plantPrepare t)
+      (st', r.render fun _ => "")
+    | none => (st, "bad-op var")
   | "rmtrackfrom", [c, t] =>
     match cr c, tr t with
     | some c, some t => run st (.crateRemoveTrack c t)
@@ -358,7 +367,7 @@ def parseDump (a : List String) : Option Lib2 :=
     let info ← stripPrefix "info" info
     let seq ← stripPrefix "seq" seq
     let [[u, ma, mi, pa]] ← splitRows info | none
-    let [[sT, sP, sE, sL]] ← splitRows seq | none
+    let [[sT, sP, sE, sL, sR]] ← splitRows seq | none
     let uuid ← pUuidTok u
     let ver : Int × Int × Int := (← ma.toInt?, ← mi.toInt?, ← pa.toInt?)
     let trRows ← splitRows (← stripPrefix "Track" tr)
@@ -394,7 +403,7 @@ def parseDump (a : List String) : Option Lib2 :=
       | _ => none
     let seqT ← pSeq sT
     pure { tdb := ⟨uuid, seqT.toNat, rows⟩, pl := pls, plSeq := ← pSeq sP, pe := pes, peSeq := ← pSeq sE,
-           log := logs, logSeq := (← pSeq sL).toNat, art := arts, prep := preps, ver := ver }
+           log := logs, logSeq := (← pSeq sL).toNat, art := arts, prep := preps, prepSeq := (← pSeq sR).toNat, ver := ver }
   | _ => none
 
 def invCmd (a : List String) : String :=
